@@ -1,8 +1,8 @@
 (* Extraction of the dial model for the correspondence check (ExtrOcamlBasic only). *)
-From Verif Require Import Bytes Dial.
+From Verif Require Import Bytes Dial DialCfg.
 Require Extraction.
 Require Import ExtrOcamlBasic.
 Extraction "model.ml"
-  Dial.run_case Dial.cfg_src Dial.srv0 Dial.closes Dial.arm_clear Dial.arm_tls Dial.ended
+  Dial.run_case Dial.cfg_src Dial.srv0 Dial.set_refuse Dial.closes Dial.arm_clear Dial.arm_tls Dial.ended
   Dial.plain_impl Dial.login_impl Dial.cram_impl Dial.xoauth2_impl
-  Dial.src_fx_close Dial.src_fx_quit Dial.src_fx_arm Dial.src_fx_send.
+  DialCfg.apply_cfg Dial.src_fx_close Dial.src_fx_quit Dial.src_fx_arm Dial.src_fx_send.
